@@ -140,6 +140,31 @@ fn v3_into_v5<const L: usize, const NL: usize>(s: &mut Src, name: &[u8; NL], lev
     }
     done(native); done(rb); done(rs); done(r5); done(resumed);
 }
+/// identification only, on a fully concrete frame: whatever a decoder that fails to identify the
+/// version goes on to do with the rest of the packet stays a concrete execution (with symbolic
+/// content such a decoder reads lengths out of content bytes and the query above does not decide)
+fn v3_into_v5_ident<const L: usize, const NL: usize>(s: &mut Src, name: &[u8; NL], level: u8, proto: mp::Protocol) {
+    let _ = s.u8();
+    let mut frame = [0u8; L];
+    frame[0] = 0x10;
+    frame[1] = (L - 2) as u8;
+    frame[3] = NL as u8;
+    let mut i = 0;
+    while i < NL { frame[4 + i] = name[i]; i += 1; }
+    frame[4 + NL] = level;
+    frame[5 + NL] = 0x02;
+    frame[7 + NL] = 60;
+    frame[9 + NL] = 1;
+    frame[10 + NL] = b'c';
+    let (rs, _) = fe::v5::strict(0x10, (L - 2) as u32, 2, &frame[2..]);
+    vassert!(matches!(&rs, Err(mp::v5::ErrorV5::Common(mp::Error::UnexpectedProtocol(p))) if *p == proto), "C13|cross.v3_into_v5.strict|v5 strict decoder does not report UnexpectedProtocol(version found)");
+    let rb = fe::v5::blocking(&frame);
+    vassert!(matches!(&rb, Err(mp::v5::ErrorV5::Common(mp::Error::UnexpectedProtocol(p))) if *p == proto), "C13|cross.v3_into_v5.blocking|v5 blocking decoder does not report UnexpectedProtocol(version found)");
+    vcover!(true, "identified");
+    done(rs); done(rb);
+}
+pub fn v311_into_v5_ident(s: &mut Src) { v3_into_v5_ident::<15, 4>(s, b"MQTT", 4, mp::Protocol::V311) }
+pub fn v310_into_v5_ident(s: &mut Src) { v3_into_v5_ident::<17, 6>(s, b"MQIsdp", 3, mp::Protocol::V310) }
 pub fn v311_into_v5(s: &mut Src) { v3_into_v5::<15, 4>(s, b"MQTT", 4, mp::Protocol::V311) }
 pub fn v310_into_v5(s: &mut Src) { v3_into_v5::<17, 6>(s, b"MQIsdp", 3, mp::Protocol::V310) }
 
@@ -217,6 +242,16 @@ scenarios! {
     #[kani::stub(<std::io::Error as std::string::ToString>::to_string, crate::model::io_to_string_stub)]
     #[kani::stub(simdutf8::basic::from_utf8, crate::model::from_utf8_model_stub)]
     c13_protocol_wire8 [9] => proto_wire8;
+    #[kani::unwind(9)]
+    #[kani::stub(<mqtt_proto_sync::Error as std::convert::From<std::io::Error>>::from, crate::model::from_io_eof_stub)]
+    #[kani::stub(<std::io::Error as std::string::ToString>::to_string, crate::model::io_to_string_stub)]
+    #[kani::stub(simdutf8::basic::from_utf8, crate::model::from_utf8_class_stub)]
+    c13_v311_into_v5_ident [1] => v311_into_v5_ident;
+    #[kani::unwind(9)]
+    #[kani::stub(<mqtt_proto_sync::Error as std::convert::From<std::io::Error>>::from, crate::model::from_io_eof_stub)]
+    #[kani::stub(<std::io::Error as std::string::ToString>::to_string, crate::model::io_to_string_stub)]
+    #[kani::stub(simdutf8::basic::from_utf8, crate::model::from_utf8_class_stub)]
+    c13_v310_into_v5_ident [1] => v310_into_v5_ident;
     #[kani::unwind(9)]
     #[kani::stub(<mqtt_proto_sync::Error as std::convert::From<std::io::Error>>::from, crate::model::from_io_eof_stub)]
     #[kani::stub(<std::io::Error as std::string::ToString>::to_string, crate::model::io_to_string_stub)]
